@@ -269,9 +269,11 @@ func (s *vStoreSys) Apply(op vOp, hist []vOp, check bool) {
 		s.env.do(func() {
 			if op.K == "Add" {
 				id, err = s.st.Add(vCopyVec(d.Vec), d.Text, vCloneMeta(d.Meta))
+				vSpoilMeta()
 			} else {
 				id = uint32(op.A)
 				err = s.st.AddWithID(id, vCopyVec(d.Vec), d.Text, vCloneMeta(d.Meta))
+				vSpoilMeta()
 			}
 		})
 		if op.C == 0 {
